@@ -392,6 +392,12 @@ impl JobServer {
 
                     for fd in rfds.fds(None) {
                         if fd == self.params.token_fds.0 {
+                            if state.my_tokens >= 1 {
+                                // A job that finished in this same wake-up already
+                                // gave us its token; taking another one from the
+                                // pipe would leave us with two.
+                                continue;
+                            }
                             let mut b: [u8; 1] = [0];
                             let read_result = try_read(self.params.token_fds.0, &mut b)
                                 .map_err(RedoError::opaque_error)?;
